@@ -1527,6 +1527,20 @@ func (e *Entry) dup() *Entry {
 		ne.Extra[k] = v
 	}
 
+	// Likewise the input and output of an rpc or action are entries of
+	// their own that belong to exactly one parent.
+	if e.RPC != nil {
+		ne.RPC = &RPCEntry{}
+		if e.RPC.Input != nil {
+			ne.RPC.Input = e.RPC.Input.dup()
+			ne.RPC.Input.Parent = &ne
+		}
+		if e.RPC.Output != nil {
+			ne.RPC.Output = e.RPC.Output.dup()
+			ne.RPC.Output.Parent = &ne
+		}
+	}
+
 	// The list attributes are changed in place by deviations, so every
 	// copy needs its own.
 	if e.ListAttr != nil {
